@@ -47,13 +47,15 @@ type Conn struct {
 	deadline       time.Time
 	AfterClose     int // bytes written after Close
 
-	OnRead    func(n int)    // after n bytes were handed to the reader
-	OnEOF     func()         // when the reader is given EOF
-	OnTimeout func()         // when a stalled read times out
-	OnBlocked func(pos int)  // when a Read blocks on a gate at offset pos
-	OnWrite   func(p []byte) // after bytes were appended to Out
-	OnClose   func()         // first Close
-	eofSeen   bool
+	OnRead      func(n int)    // after n bytes were handed to the reader
+	OnEOF       func()         // when the reader is given EOF
+	OnTimeout   func()         // when a stalled read times out
+	OnBlocked   func(pos int)  // when a Read blocks on a gate at offset pos
+	OnWrite     func(p []byte) // after bytes were appended to Out
+	OnWriteFail func()         // first injected write failure
+	wfailed     bool
+	OnClose     func() // first Close
+	eofSeen     bool
 }
 
 // New returns a connection that will deliver in, cut into fragments of the given sizes.
@@ -202,7 +204,12 @@ func (c *Conn) Write(p []byte) (int, error) {
 		return 0, net.ErrClosed
 	}
 	if c.WriteFailAfter >= 0 && len(c.Out)+len(p) > c.WriteFailAfter {
+		first := !c.wfailed
+		c.wfailed = true
 		c.mu.Unlock()
+		if first && c.OnWriteFail != nil {
+			c.OnWriteFail()
+		}
 		return 0, errors.New("vnet: write failed (injected)")
 	}
 	c.Out = append(c.Out, p...)
